@@ -296,3 +296,50 @@ Proof.
   - exact (tamper_tail_bit_interest_thm sha256 sha256_len sign nm cfg a sg si est e sv Hsi Hest Hpre Hcfg Hsg Hsgi Hfit Hmk Hsign i Hi r V i' cov' Er).
 Qed.
 End TamperInterestName.
+
+(* Rejection, under an explicit hypothesis on the validator's check: the only (message, signature) pair `chk` accepts is
+   the pair that was signed (ideal unforgeability for the quantified signer).  Then a packet with one flipped bit in the
+   signed portion or the signature, if it decodes at all, is rejected by `chk`. *)
+Section Rejected.
+Variable chk : bytes -> bytes -> bool.
+
+Corollary tamper_any_bit_data_rejected_thm sign nm cfg content sg si est e sv :
+  data_siginfo sg = Ok (si, est) -> name_ok nm -> meta_wf (meta_of cfg) -> signer_ok sg -> data_fits nm cfg content si est ->
+  (0 < est)%N -> make_data sign nm cfg content sg = Ok e -> sign (e_cov e) = Some sv ->
+  (forall m s, chk m s = true -> m = concat (e_cov e) /\ s = sv) ->
+  forall i, value_offset (concat (e_wire e)) <= i / 8 < length (concat (e_wire e)) ->
+  forall r, View r (flip_bit (concat (e_wire e)) i) 0 ->
+  forall d' cov', read_data r = ROk d' cov' ->
+    match do_sv (obs_data d') with Some s' => chk (concat cov') s' = false | None => True end.
+Proof.
+  intros Hsi Hn Hm Hsg Hfit Hest Hmk Hsign Hchk i Hi r V d' cov' Er.
+  destruct (do_sv (obs_data d')) as [s'|] eqn:Es; [|exact I].
+  destruct (chk (concat cov') s') eqn:Ec; [|reflexivity]. exfalso.
+  destruct (Hchk _ _ Ec) as [Hm' Hs']. subst s'.
+  exact (tamper_any_bit_read_data_thm sign nm cfg content sg si est e sv Hsi Hn Hm Hsg Hfit Hest Hmk Hsign i Hi r V d' cov' Er (conj Hm' Es)).
+Qed.
+
+Variable sha256 : bytes -> bytes.
+Hypothesis sha256_len : forall x, length (sha256 x) = 32%nat.
+
+Corollary tamper_any_bit_interest_rejected_thm sign nm cfg a sg si est e sv :
+  let pre := strip_digest nm in
+  int_siginfo sg true = Ok (si, est) -> (0 < est)%N -> name_ok pre ->
+  iconfig_ok cfg -> signer_ok sg -> signer_int_ok sg -> int_fits (pre ++ [mkc 2 zeros32]) cfg (Some a) si est ->
+  make_interest sha256 sign nm cfg (Some a) sg = Ok e -> sign (e_cov e) = Some sv ->
+  (forall m s, chk m s = true -> m = concat (e_cov e) /\ s = sv) ->
+  let W := concat (e_wire e) in
+  let s1 := value_offset W + value_offset (skipn (value_offset W) W) in
+  let tail := enc_elems (int_tail_elems (Some (concat a)) si (Some sv)) in
+  forall i, (s1 <= i / 8 < s1 + length (name_inner pre)) \/ (length W - length tail <= i / 8 < length W) ->
+  forall r, View r (flip_bit W i) 0 ->
+  forall i' cov', read_interest sha256 r = ROk i' cov' ->
+    match io_sv (obs_int i') with Some s' => chk (concat cov') s' = false | None => True end.
+Proof.
+  intros pre Hsi Hest Hpre Hcfg Hsg Hsgi Hfit Hmk Hsign Hchk W s1 tail i Hi r V i' cov' Er.
+  destruct (io_sv (obs_int i')) as [s'|] eqn:Es; [|exact I].
+  destruct (chk (concat cov') s') eqn:Ec; [|reflexivity]. exfalso.
+  destruct (Hchk _ _ Ec) as [Hm' Hs']. subst s'.
+  exact (tamper_any_bit_interest_thm sha256 sha256_len sign nm cfg a sg si est e sv Hsi Hest Hpre Hcfg Hsg Hsgi Hfit Hmk Hsign i Hi r V i' cov' Er (conj Hm' Es)).
+Qed.
+End Rejected.
